@@ -56,6 +56,10 @@ def obligations(tier):
                             "cfg": [rf, rec, rev], "post": pw, "weight": 4})
     for m in REWRITER_CALLS:
         obs.append({"id": f"C11/rewriter/{m}", "kind": "rewriter", "call": m, "weight": 1})
+    for a in ("insert_op", "notify_op_modified", "insert_block_argument"):
+        for b_ in ("insert_op", "erase_op", "replace_op.values", "replace_all_uses_with", "replace_all_uses_with.no_uses", "replace_all_uses_with.erase_unused", "notify_op_modified", "insert_block_argument",
+                   "erase_block_argument", "inline_block"):
+            obs.append({"id": f"C11/rewriter-seq/{a}>{b_}", "kind": "seq", "first": a, "second": b_, "weight": 1})
     return obs
 
 
@@ -319,9 +323,43 @@ REWRITER_CALLS = {"insert_op.before": r_insert, "insert_op.at_end": r_insert_end
                   "erase_block_argument": r_erase_block_arg, "inline_block": r_inline_block, "replace_value_with_new_type": r_new_type}
 
 
+# has_done_action is monotone: once a method has changed the IR, no later method call may clear the flag
+FIRST = {
+    "insert_op": lambda c: c[6].insert_op(mk(0), InsertPoint.at_end(c[1])),
+    "notify_op_modified": lambda c: c[6].notify_op_modified(c[4]),
+    "insert_block_argument": lambda c: c[6].insert_block_argument(c[1], 0, i32),
+}
+SECOND = {
+    "insert_op": lambda c: c[6].insert_op(mk(0), InsertPoint.before(c[4])),
+    "erase_op": lambda c: c[6].erase_op(c[5]),
+    "replace_op.values": lambda c: c[6].replace_op(c[4], [], [c[3].results[0]]),
+    "replace_all_uses_with": lambda c: c[6].replace_all_uses_with(c[3].results[0], c[1].args[0]),
+    "replace_all_uses_with.no_uses": lambda c: c[6].replace_all_uses_with(c[5].results[0], c[1].args[0]),
+    "replace_all_uses_with.erase_unused": lambda c: c[6].replace_all_uses_with(c[5].results[0], None),
+    "notify_op_modified": lambda c: c[6].notify_op_modified(c[4]),
+    "insert_block_argument": lambda c: c[6].insert_block_argument(c[1], 1, i32),
+    "erase_block_argument": lambda c: c[6].erase_block_argument(c[2].args[0]),
+    "inline_block": lambda c: c[6].inline_block(c[2], InsertPoint.before(c[4]), [c[3].results[0]]),
+}
+
+
+def seq_harness(ob):
+    def h(ex):
+        c = _ctx(ex)
+        FIRST[ob["first"]](c)
+        if not c[6].has_done_action:
+            return z3.BoolVal(False)
+        SECOND[ob["second"]](c)
+        return z3.BoolVal(bool(c[6].has_done_action))
+
+    return h
+
+
 def harness(ob):
     if ob["kind"] == "driver":
         return driver_harness(ob)
+    if ob["kind"] == "seq":
+        return seq_harness(ob)
     f = REWRITER_CALLS[ob["call"]]
     return lambda ex: z3.BoolVal(bool(f(ex)))
 
